@@ -12,6 +12,8 @@ else:
 import numpy as np
 import time
 
+from setigen.voltage import raw_utils
+
 
 def get_pfb_waterfall(pfb_voltages_x, pfb_voltages_y=None, fftlength=256, int_factor=1):
     """
@@ -82,14 +84,16 @@ def get_waterfall_from_raw(raw_filename, block_size, num_chans, int_factor=1, ff
     XX_psd : array
         Finely channelized voltages
     """
+    # Size of the first header; it is zero-padded to a multiple of 512 bytes 
+    # only when DIRECTIO is set
+    header = raw_utils.read_header(raw_filename)
+    header_size = 80 * (len(header) + 1)
+    if int(header.get('DIRECTIO', 0)) != 0:
+        header_size = int(512 * np.ceil(header_size / 512))
+        
     with open(raw_filename, "rb") as f:
-        i = 1
-        chunk = f.read(80)
-        while f"{'END':<80}".encode() not in chunk:
-            chunk = f.read(80)
-            i += 1
-        # Skip zero padding
-        chunk = f.read((512 - (80 * i % 512)))
+        # Skip header
+        chunk = f.read(header_size)
         # Read data
         chunk = f.read(block_size)
         
